@@ -68,7 +68,10 @@ SeqN(xs) == Node("seq", "", 0, xs)
 Ent(key, v) == Node("ent", key, 0, <<v>>)
 MapN(es) == Node("map", "", 0, es)
 EmptyDoc == Node("empty", "", 0, <<>>)        \* no content at all
-BadDoc(i) == Node("bad", "", i, <<>>)         \* i-th kind of malformed text (driver's catalogue)
+BadDoc(i) == Node("bad", "", i, <<>>)         \* i-th kind of non-document (driver's catalogue): 1..6 text that is
+                                              \* not well-formed; 7..12 well-formed text that the loader cannot turn
+                                              \* into a value (invalid date, tagged non-number, ... ; JSON: nesting
+                                              \* beyond what the loader can build)
 
 DocClass(d) ==
     CASE d.t = "map" -> "mapping"
@@ -76,6 +79,7 @@ DocClass(d) ==
       [] d.t \in {"str", "int", "bool"} -> "scalar"
       [] d.t = "null" -> "null"
       [] d.t = "empty" -> "empty"
+      [] d.t = "bad" /\ d.n > 6 -> "constructor-fails"
       [] OTHER -> "malformed"
 
 Outcomes == {"value", "skip", "parse"}
@@ -89,7 +93,7 @@ Allowed(fmt, cls, noise) ==
     CASE cls \in {"mapping", "sequence"} -> {"value"}
       [] cls = "null"  -> IF fmt = "json" /\ noise > 0 THEN {"skip", "parse"} ELSE {"skip"}
       [] cls = "empty" -> IF fmt = "json" /\ noise > 0 THEN {"parse"} ELSE {"skip"}
-      [] OTHER -> {"parse"}                      \* scalar, malformed
+      [] OTHER -> {"parse"}                      \* scalar, malformed, constructor-fails: "anything else"
 
 RECURSIVE SameVal(_, _)
 SameVal(a, b) ==
@@ -110,7 +114,7 @@ Conts(Ch, w) ==
 SmallCh == {StrN("a"), Null} \cup Conts({IntN(0)}, 1)
 BigCh   == {StrN("a"), Null, IntN(7), BoolN(FALSE)} \cup Conts({IntN(0), StrN("b")}, 1)
 Docs == Leaves \cup Conts(Leaves, 2) \cup Conts(IF Deep THEN BigCh ELSE SmallCh, 2)
-        \cup {EmptyDoc} \cup {BadDoc(i) : i \in 1..6}
+        \cup {EmptyDoc} \cup {BadDoc(i) : i \in 1..12}
 DocInputs == [doc : Docs, fmt : {"json", "yaml"}, noise : 0..2]
 
 -----------------------------------------------------------------------------
